@@ -249,6 +249,104 @@ def _probe_name_chars():
     return "".join(sorted(acc))
 
 
+def _reader_facts(cls):
+    """SqliteReader.table_names: `X = self.con.execute(<SQL constant>).fetchall(); return [r[0] for r in X]` (no filter),
+    and __iter__: every listed table is read and every record yielded unless the selector rejects it."""
+    fn = cls.table_names
+    node = ast.parse(textwrap.dedent(inspect.getsource(fn))).body[0]
+    body = [s for s in node.body if not (isinstance(s, ast.Expr) and isinstance(s.value, ast.Constant))]
+
+    def where(n):
+        return "SqliteReader.table_names line %d: %s" % (fn.__code__.co_firstlineno - 1 + getattr(n, "lineno", 0), ast.unparse(n)[:90])
+
+    def query_of(call):
+        if (isinstance(call, ast.Call) and isinstance(call.func, ast.Attribute) and call.func.attr == "fetchall" and not call.args
+                and isinstance(call.func.value, ast.Call)):
+            ex = call.func.value
+            if (isinstance(ex.func, ast.Attribute) and ex.func.attr == "execute" and _is_self_attr(ex.func.value, "con")
+                    and len(ex.args) == 1 and not ex.keywords and isinstance(ex.args[0], ast.Constant) and isinstance(ex.args[0].value, str)):
+                return ex.args[0].value
+        return None
+    sql = None
+    src_name = None
+    if len(body) == 2 and isinstance(body[0], ast.Assign) and len(body[0].targets) == 1 and isinstance(body[0].targets[0], ast.Name):
+        sql = query_of(body[0].value)
+        src_name = body[0].targets[0].id
+        ret = body[1]
+    elif len(body) == 1:
+        ret = body[0]
+    else:
+        raise Unsupported("unrecognised body: " + where(node))
+    if not (isinstance(ret, ast.Return) and isinstance(ret.value, ast.ListComp) and len(ret.value.generators) == 1):
+        raise Unsupported("unrecognised return: " + where(ret))
+    g = ret.value.generators[0]
+    if g.ifs or g.is_async or not isinstance(g.target, ast.Name):
+        raise Unsupported("the table list is filtered: " + where(ret))
+    elt = ret.value.elt
+    if not (isinstance(elt, ast.Subscript) and isinstance(elt.value, ast.Name) and elt.value.id == g.target.id
+            and isinstance(elt.slice, ast.Constant) and elt.slice.value == 0):
+        raise Unsupported("unrecognised element: " + where(ret))
+    if src_name is not None:
+        if not (isinstance(g.iter, ast.Name) and g.iter.id == src_name):
+            raise Unsupported("unrecognised source of the table list: " + where(ret))
+    else:
+        sql = query_of(g.iter)
+    if sql is None:
+        raise Unsupported("the table list does not come from one constant query: " + where(node))
+    norm = " ".join(sql.replace('"', "'").split()).rstrip(";").strip().lower()
+    if not all(32 <= ord(c) < 127 for c in norm):
+        raise Unsupported("non-ASCII table enumeration query")
+
+    # __iter__
+    fn2 = cls.__iter__
+    node2 = ast.parse(textwrap.dedent(inspect.getsource(fn2))).body[0]
+    body2 = [s for s in node2.body if not (isinstance(s, ast.Expr) and isinstance(s.value, ast.Constant))]
+
+    def is_log(st):
+        return (isinstance(st, ast.Expr) and isinstance(st.value, ast.Call) and isinstance(st.value.func, ast.Attribute)
+                and st.value.func.attr in ("debug", "info"))
+
+    def bad2(n):
+        raise Unsupported("SqliteReader.__iter__ line %d: %s" % (fn2.__code__.co_firstlineno - 1 + getattr(n, "lineno", 0), ast.unparse(n)[:90]))
+    if len(body2) != 1 or not isinstance(body2[0], ast.For) or body2[0].orelse:
+        bad2(node2)
+    outer = body2[0]
+    it = outer.iter
+    if not (isinstance(it, ast.Call) and isinstance(it.func, ast.Attribute) and it.func.attr == "table_names"
+            and isinstance(it.func.value, ast.Name) and it.func.value.id == "self" and not it.args and isinstance(outer.target, ast.Name)):
+        bad2(outer)
+    inner = [s for s in outer.body if not is_log(s)]
+    if len(inner) != 1 or not isinstance(inner[0], ast.For) or inner[0].orelse:
+        bad2(outer)
+    f2 = inner[0]
+    it2 = f2.iter
+    if not (isinstance(it2, ast.Call) and isinstance(it2.func, ast.Attribute) and it2.func.attr == "read_table"
+            and isinstance(it2.func.value, ast.Name) and it2.func.value.id == "self" and len(it2.args) == 1
+            and isinstance(it2.args[0], ast.Name) and it2.args[0].id == outer.target.id and isinstance(f2.target, ast.Name)):
+        bad2(f2)
+    rec = f2.target.id
+    b3 = [s for s in f2.body if not is_log(s)]
+
+    def is_yield_rec(st):
+        return (isinstance(st, ast.Expr) and isinstance(st.value, ast.Yield) and isinstance(st.value.value, ast.Name)
+                and st.value.value.id == rec)
+    ok = False
+    if len(b3) == 1 and is_yield_rec(b3[0]):
+        ok = True
+    elif len(b3) == 1 and isinstance(b3[0], ast.If) and not b3[0].orelse and len(b3[0].body) == 1 and is_yield_rec(b3[0].body[0]):
+        t = b3[0].test
+        # not self.selector or self.selector.match(record)
+        if (isinstance(t, ast.BoolOp) and isinstance(t.op, ast.Or) and len(t.values) == 2
+                and isinstance(t.values[0], ast.UnaryOp) and isinstance(t.values[0].op, ast.Not) and _is_self_attr(t.values[0].operand, "selector")
+                and isinstance(t.values[1], ast.Call) and isinstance(t.values[1].func, ast.Attribute) and t.values[1].func.attr == "match"
+                and _is_self_attr(t.values[1].func.value, "selector") and len(t.values[1].args) == 1
+                and isinstance(t.values[1].args[0], ast.Name) and t.values[1].args[0].id == rec):
+            ok = True
+    if not ok:
+        bad2(f2)
+    return norm, True
+
+
 def gen_sqlite():
     import flow.record.adapter.sqlite as sq
     from flow.record import RecordDescriptor
@@ -302,7 +400,10 @@ def gen_sqlite():
     out += "  code_init_autocommit := %s; code_init_count_zero := %s; code_init_tx_cycle := %s |}.\n\n" % (
         cbool(autocommit), cbool(count_zero), cbool(tx))
     out += "(* every character that occurs in some accepted type or field name (probed) *)\n"
-    out += "Definition name_chars : string := %s.\n" % cstr(_probe_name_chars())
+    out += "Definition name_chars : string := %s.\n\n" % cstr(_probe_name_chars())
+    query, iter_all = _reader_facts(sq.SqliteReader)
+    out += "(* SqliteReader.table_names: its one constant query (whitespace/case normalised), unfiltered; __iter__ reads every listed table *)\n"
+    out += "Definition reader_table_query : string := %s.\nDefinition reader_iterates_all_tables : bool := %s.\n" % (cstr(query), cbool(iter_all))
     write_if_changed(GEN / "Gen_sqlite.v", out)
 
 
